@@ -137,7 +137,7 @@ def _close(got, want):
 UNIFORM = [("1", "1", "1"), ("2", "2", "2"), ("0.3", "0.3", "0.3")]
 NONUNIFORM = [("3", "3", "4"), ("1", "1", "2"), ("1", "2", "3"), ("2", "1", "1"), ("1", "3", "1"), ("1", "1", "0.5"),
               ("0.3", "0.7", "1"), ("1", "1", "2.5")]
-MER_COSTS = [("1", "1", "1"), ("2", "2", "2"), ("1", "2", "3"), ("3", "3", "4")]
+MER_COSTS = [("1", "1", "1"), ("2", "2", "2"), ("1", "2", "3"), ("3", "3", "4"), ("1", "0", "1")]
 
 
 def _cols(rows, T, N):
